@@ -83,6 +83,37 @@ check("C10", "fault_enumeration",
       "'bounded time' is measured in decoder-loop iterations of a closed system; a stop() issued while the sound's track is paused is frozen with the track (C12) and not yet terminal.",
       "DESIGN.md §3 C10")
 
+check("C13", "exploration",
+      "exhaustive enumeration of parameter-corner lattices x sample rates x input signals x ALL 128 compositions of 8 frames into process calls on the real Effect objects, judged by algebraic laws",
+      "1296 lattice points over filter (4 modes), EQ (3 kinds), delay (plain / filter / delay nested in the feedback loop), reverb, compressor, distortion (2 kinds), volume and panning control (each parameter at both documented edges, an interior value and beyond the internal clamp) x sample rate {8000, 44100, 48000, 192000} (+22050, 96000 thorough) x 7 input signals (impulse, step, DC, full-scale alternating, ramp, 1e-40 denormal, fixed noise table): finiteness over 2^12 (2^16) frames, dry/neutral identity bit-for-bit, silence in => exact silence out from a fresh effect, superposition and scaling within 1e-4 of peak for the linear effects, and exact equality of the output under every one of the 128 compositions of 8 frames (on warm and on fresh effects) plus fixed partitions of 256 frames.",
+      "Value::Fixed parameters; nested feedback loop gains below 1; the linearity window is 512 frames because f32 state-variable filters drift over much longer runs.",
+      "DESIGN.md §3 C13")
+check("C14", "exploration",
+      "exhaustive enumeration of parameter lattices x sample rates x probe signals on the real Effect objects, compared sample by sample with independent reference implementations of the cited algorithms and with analytic transfer facts",
+      "Filter (4 modes x cutoff x resonance x mix), EQ (3 kinds x frequency x gain x q), delay (time x feedback x mix x feedback effect), reverb (feedback x damping x width x mix), compressor (threshold x ratio x attack x release x makeup x mix x level), distortion (kind x drive x mix), volume and panning control, each at sample rates {8000, 44100, 48000, 192000} (+22050, 96000): (a) sample-by-sample agreement within 1e-5 of peak with references written from the cited sources (Simper SVF, Cytomic SvfLinearTrapOptimised2 bell/shelves, Freeverb, integer delay line with feedback effects, dB-domain compressor, clip curves); (b) facts on kira's output alone: steady-state sine gain = analytic |H| +-0.1 dB at DC, 10 Hz ... 0.45 sr and Nyquist, unity pass band, requested EQ gain at centre/shelf and half gain at the corner, echoes at exact multiples of the delay with amplitude feedback^k, reverb energy decay, compressor static curve and 1-1/e time constants, distortion curves and small-signal transparency, 10^(dB/20), constant-power pan.",
+      "decides the property on the stated lattices, not on the continuum; references share the precision regime of the cited designs (f64 coefficients, f32 state).",
+      "DESIGN.md §3 C14")
+check("C15", "exploration",
+      "exhaustive enumeration of a position / orientation / range / curve / strength lattice and of listener add/drop histories on the real mixer, judged by metamorphic laws between renderings",
+      "343 (729 thorough) emitter positions x listener positions x 6 (9) orientations x 3 (5) distance ranges x 4 (9) attenuation curves x 5 (6) strengths, each scene rendered as itself, mirrored through the listener's median plane and under 5 (8) rigid motions; extreme scenes (1e6 coordinates, emitter at an ear, coincident), degenerate ranges, 7 listener histories (stale id, slot reuse, dropped before / after adoption, mid-run, other listener dropped), Value::FromListenerDistance on an effect / track volume in 6 nestings, nested spatial tracks, position / orientation / strength tweens. Laws: level = attenuation(distance) x ear gains; attenuation 1 inside min, 0 at/beyond max, non-increasing, equal for equal distance, matching the configured curve; ear gains in [1-s, 1], emitter-side ear not quieter; mirror swaps L/R; rigid motion invariance; strength 0 passes stereo through; no listener => exact silence; mapped parameter follows the distance; everything finite.",
+      "relational laws are evaluated where f32 resolves the 0.1-unit ear offset; a listener dropped before the audio thread picked it up exists during exactly one callback (resource life cycle, C08).",
+      "DESIGN.md §3 C15")
+check("C16", "model_checking",
+      "exhaustive enumeration of device rates x change moments per scene, of all orders of {create track, change rate, callback} up to a depth, and preemption-bounded DFS over the create-track || change-rate interleavings",
+      "Scene grid: 7 scenes (sound duration and pitch, delayed start, clock-scheduled start and clock reading, volume tween, delay echo on main / sub / nested / send track, filter corner, EQ centre) x device rates {8000, 11025, 16000, 44100, 48000, 96000, 192000} (+5 thorough) x second rate x change before callback 0..4 or never x internal buffer {32, 128}; event times in true seconds must agree across rates within a frame plus a buffer. Histories: every sequence of length <= 4 (5) over {callback, change rate, 7 public track-creation paths}, each track carrying a probe effect and a delay with a probe in its feedback loop: on every process call the last rate an effect was told must equal the rate in force and the echo must arrive at delay_time. E2: game thread adds a track while the audio thread changes the rate and runs a callback, preemption bound 2 (3).",
+      "streaming sounds use the same dt stepping (C09); echoes in flight at the moment of a rate change are not judged (kira clears the delay line).",
+      "DESIGN.md §3 C16")
+check("C17", "model_checking",
+      "exhaustive enumeration of LFO / tweener configurations and handle operations against reference oscillator and tween models, of modulator -> parameter chains through the real renderer, and of all add/drop/callback histories up to a depth against a counting model",
+      "Direct LFO: waveform x frequency x amplitude x offset x phase x dt x one of 10 handle operations at 3 positions (pairs in thorough) over 12 updates vs LfoModel; direct tweener vs a tween reference; Mapping::map over ranges (incl. inverted) x easings x inputs for 4 value types; chains through the real renderer: 9 targets (sound volume, track volume, main volume, effect parameter, clock speed, LFO offset / amplitude / frequency, two-stage chain) x internal buffer {1,3,8} x 10 sources x 7 mappings x link mode x drops: the linked parameter in chunk c must equal mapping(modulator value read in chunk c) and hold after the source is removed; histories: every sequence of length 7 (9) over {add probe modulator, drop oldest / newest / middle, callback}: each modulator updated exactly once per chunk with the chunk's dt, older sources already updated when read, removed / stale ids read None.",
+      "sample rate 8 Hz makes all times dyadic; values within 1e-9 of a waveform discontinuity are accepted on either side.",
+      "DESIGN.md §3 C17")
+check("C18", "fault_enumeration",
+      "exhaustive enumeration of PCM WAV encodings from an independent encoder, of seek sequences on a position lattice, and of every truncation length and every single header-byte corruption (x 255 values) of base files, on the real loader and the real streaming path",
+      "Static load of generated WAVs: {u8, s16, s24, s32, f32, f64} x channels {1,2,3} x 8 (13) lengths x 2 (6) rates x 5 chunk layouts: frames, count and rate must equal the independent conversion, mono duplicated, >2 channels the documented error; streaming: every start position and every sequence of <= 2 (3) seeks over a lattice incl. packet boundaries must reproduce reference[pos..]; shipped .ogg/.wav assets: streaming == static (differential); faults: every truncation length of 12 (16) files and every header byte set to each of the 255 other values (payload bytes too in thorough), each loaded and streamed: error, or a prefix / no more than the file can hold, never a panic, a hang or a dead worker (4 GiB memory cap per worker, progress tracking attributes a dying worker to its case).",
+      "the decoder thread is paced one iteration per rendered frame through the gate hook; compressed assets have no independent decoder (differential only).",
+      "DESIGN.md §3 C18")
+
 NOT_YET = {}
 
 def main():
